@@ -57,7 +57,7 @@ func init() {
 		Level:     "exploration",
 		Technique: "differential oracle (own canonical-signature printer and own Keccak-f[1600], 16 literal known answers) for Event.Signature/SignatureHash; log-matching monitor through Integration.Insert with a recording connection and per-log row attribution",
 		Rule: "case 0: the 16 known-answer events, each with every number of indexed inputs 0..3 in a seeded layout, signature + hash + a log scenario. Other cases: 25 iterations of (a) a generated event (identifier names incl. ones containing 'tuple'; type trees to depth 4 with tuples, tuple arrays, nested tuples, T[k] for all k, T[]; 0..3 inputs of any type marked indexed) whose signature and hash are compared, and (b) a generated event (shapes C09 decodes correctly on this tree: k in {1..9,11}, no arrays of bytes) put through Integration.Insert in 1..3 blocks of 1..3 transactions with 1..6 logs each, drawn from: matching; same hash with each other topic count 1..5; empty topic list; one hash bit flipped; other event name; one input type changed; SHA3-256 instead of Keccak-256; hash truncated to 31 / extended to 33 bytes; hash in the last instead of the first topic. " +
-			"A signature is (shape class of an input, indexed or not) for part 1 and (decoy kind, number of indexed inputs, data-empty) for part 2; trivial = a scenario without any matching log. A third of the directly built log scenarios leave the unselected indexed inputs unnamed; every other built-before-use case stores its integrations in shovel.integrations (as SaveIntegration does) and loads them with AllIntegrations.",
+			"A signature is (shape class of an input, indexed or not) for part 1 and (decoy kind, number of indexed inputs, data-empty) for part 2; trivial = a scenario without any matching log. A third of the directly built log scenarios leave the unselected indexed inputs unnamed; every other built-before-use case stores its integrations in shovel.integrations (as SaveIntegration does) and loads them with AllIntegrations. Logs of all-indexed events carry surplus data half of the time; a third of the directly built scenarios are the second construction from one declaration; indexed string/bytes inputs are selected one time in three.",
 		Assumptions: []string{
 			"non-anonymous events with at most 3 indexed inputs; 'same-named event with a different indexed layout' has the same signature hash by definition and is distinguishable only by its topic count, which is how decoys of that kind are built",
 			"every scenario selects at least one event input (an integration without selected inputs is indexed per transaction, not per log)",
